@@ -23,7 +23,12 @@ func (k Keeper) ClaimVesting(ctx sdk.Context, msg *types.MsgClaimVesting) (*type
 	newClaims := sdk.Coins{}
 	var updatedVestingTokens []*types.VestingTokens
 	for _, vesting := range commitments.VestingTokens {
-		vestedSoFar := vesting.VestedSoFar(ctx)                         // tokens unlocked
+		vestedSoFar := vesting.VestedSoFar(ctx) // tokens unlocked
+		if vestedSoFar.LT(vesting.ClaimedAmount) {
+			// a partial cancel reduces TotalAmount under an existing ClaimedAmount, so the reduced
+			// schedule can lag behind what was already released: nothing new is due yet
+			vestedSoFar = vesting.ClaimedAmount
+		}
 		newClaim := vestedSoFar.Sub(vesting.ClaimedAmount)              // tokens to mint or transfer
 		newClaims = newClaims.Add(sdk.NewCoin(vesting.Denom, newClaim)) // adding coin to mint or transfer
 		vesting.ClaimedAmount = vestedSoFar                             // updating claimed amount
